@@ -28,8 +28,33 @@ META = {
     "design_ref": "DESIGN.md section 4 C05",
 }
 
+# Confirmed deviations of the code (DESIGN 2.9): TRUE = the impl-shaped layer behaves as lopdf does today.  When a fix is
+# applied to /repo, set its switch to False here and move the finding to "fixed" in known_findings/C05.json.
+# (C05_DEV="h12:0,h13:0" overrides for experiments against a scratch worktree.)
+DEV = {"h12": True, "h13": True, "t127": True, "mdict": True, "dparr": True}
+DEV_TAG = {"h12": "owner.R234.key", "h13": "streamdict.string", "t127": "pw.gt127.R56", "mdict": "metadata.nonstream", "dparr": "crypt.dparray"}
+
+
+def dev_flags():
+    d = dict(DEV)
+    for kv in filter(None, os.environ.get("C05_DEV", "").split(",")):
+        k, v = kv.split(":")
+        d[k] = v not in ("0", "false", "FALSE")
+    return d
+
+
+def with_dev(cfg_name, w, flags):
+    """copy of spec/<cfg_name> whose Dev_* constants are set from `flags` (written to the work directory)"""
+    t = open(os.path.join(vlib.SPEC, cfg_name)).read()
+    for k, v in flags.items():
+        t = t.replace("Dev_%s = TRUE" % k, "Dev_%s = %s" % (k, "TRUE" if v else "FALSE"))
+    p = os.path.join(w, cfg_name)
+    with open(p, "w") as f:
+        f.write(t)
+    return p
+
+
 ACTIONS = ["MakeStateH", "EncryptH", "SaveH", "LoadH", "DecryptH", "AuthUserH", "AuthOwnerH", "AuthH"]
-KNOWN_TAGS = {"owner.R234.key", "streamdict.string", "pw.gt127.R56", "crypt.dparray", "metadata.nonstream"}
 
 TOK = {"E": "", "A": "user", "B": "owner", "W": "nope", "N": "пароль", "N2": "密碼",
        "L1": "a" * 32 + "TAIL1", "L2": "a" * 32 + "tail2", "S32": "a" * 32,
@@ -40,7 +65,7 @@ def ok_tags(tags):
     return all(t.startswith("ok") for t in tags)
 
 
-def judge_events(path, n, name, parts):
+def judge_events(path, n, name, parts, tcfg="Trace_Security.cfg"):
     """Run Trace_Security on an event file (split at Reset events into `parts` files judged concurrently).
     Returns the verdict dicts in event order + states/transitions."""
     lines = open(path).read().splitlines()
@@ -61,7 +86,7 @@ def judge_events(path, n, name, parts):
 
     def one(job):
         cp, lo, cnt, nm = job
-        r = tlc("Trace_Security.tla", "Trace_Security.cfg", workers=1, env={"TRACE": cp}, deque=True, timeout=3000, name=nm, xmx="2g")
+        r = tlc("Trace_Security.tla", tcfg, workers=1, env={"TRACE": cp}, deque=True, timeout=3000, name=nm, xmx="2g")
         vs = r.tagged("VERDICT")
         if len(vs) != cnt:
             raise vlib.ToolError("Trace_Security judged %d of %d events" % (len(vs), cnt))
@@ -70,6 +95,8 @@ def judge_events(path, n, name, parts):
 
     with ThreadPoolExecutor(max_workers=len(jobs)) as ex:
         res = list(ex.map(one, jobs))
+    for job in jobs:
+        os.remove(job[0])
     out, d, g = [], 0, 0
     for vs, dd, gg in res:
         out += vs
@@ -131,6 +158,13 @@ def triage(chk, events, verdicts, inputs_by_case=None, predicted=None):
     seen = {}
     drift = 0
     pos = 0
+    ex = chk.extra.setdefault("model_drift_examples", [])
+
+    def note(kind, reset, calls, k, more=None):
+        if len(ex) < 6:
+            d = detail_of(reset, calls, k)
+            d.pop("document", None)
+            ex.append({"kind": kind, "case": d, "predicted": more})
     for reset, calls in runs_of(events):
         vr = verdicts[pos]
         if vr.get("drift"):
@@ -145,6 +179,7 @@ def triage(chk, events, verdicts, inputs_by_case=None, predicted=None):
                 continue
             if v.get("drift"):
                 drift += 1
+                note("impl-shaped Step disagrees with the observation", reset, calls, k)
             tags = v["tags"]
             for t in tags:
                 seen[t] = seen.get(t, 0) + 1
@@ -162,6 +197,7 @@ def triage(chk, events, verdicts, inputs_by_case=None, predicted=None):
                     raise vlib.ToolError("password relation computed by the harness %s differs from the spec's %s (token %s)" % (c["rel"], p["rel"], p["tok"]))
                 if sorted(p["tags"]) != sorted(tags) and ok_tags(tags):
                     drift += 1   # the model predicted a deviation the code does not show (or another ok class)
+                    note("verdict predicted by MC_Security differs", reset, calls, k, sorted(p["tags"]))
     return seen, drift
 
 
@@ -241,12 +277,15 @@ def run(tier):
     for f in glob.glob(os.path.join(vlib.REPLAYS, "C05-*.json")):
         os.remove(f)
     quick = tier == "quick"
+    flags = dev_flags()
+    known_tags = {DEV_TAG[k] for k, v in flags.items() if v}
+    tcfg = with_dev("Trace_Security.cfg", w, flags)
     vlib.build_harness("c05")
     nrec = 250 if quick else 6000
 
     # ------------- run concurrently: (M) as the code is (+ emission), (M) as repaired, (V) recording
     def mc_asis():
-        return tlc("MC_Security.tla", "MC_Security_%s_asis.cfg" % tier, workers=4 if quick else 8, coverage=True, timeout=3000,
+        return tlc("MC_Security.tla", with_dev("MC_Security_%s_asis.cfg" % tier, w, flags), workers=4 if quick else 8, timeout=3000,
                    xmx="4g" if quick else "8g", name="c05-asis")
 
     def mc_rep():
@@ -257,7 +296,7 @@ def run(tier):
         tr, ins = os.path.join(w, "rec.ndjson"), os.path.join(w, "rec.inputs.ndjson")
         run_bin("c05", ["record", "--seed", vlib.seed(), "--n", nrec, "--out", tr, "--inputs", ins, "--threads", 4 if quick else 12])
         evs = read_ndjson(tr)
-        vs, d, g = judge_events(tr, len(evs), "c05rec", 2 if quick else 10)
+        vs, d, g = judge_events(tr, len(evs), "c05rec", 2 if quick else 10, tcfg)
         return evs, vs, d, g, read_ndjson(ins)
 
     with ThreadPoolExecutor(max_workers=3) as ex:
@@ -265,21 +304,25 @@ def run(tier):
         ra, rr, (revs, rvs, rd, rg, rins) = fa.result(), fr.result(), fv.result()
 
     # ------------- (M)
-    vlib.require_coverage(ra, ACTIONS)
     chk.add_tlc(ra)
     chk.add_tlc(rr)
     docs = {d["dn"]: d["objs"] for d in ra.tagged("DOC")}
     gen = ra.tagged("REPLAY")
     if not gen or not docs:
         raise vlib.ToolError("generator produced no behaviours")
-    mc_tags = set()
+    # anti-vacuity: every action of the state machine was taken (TLC's -coverage cannot be used: its cost model does
+    # not terminate on the mutually recursive walk operators), read off the emitted behaviours instead
+    mc_tags, taken = set(), set()
     for g in gen:
         last = g["calls"][-1]
+        taken.add(last["call"] + "H")
         if not last["ok"]:
             mc_tags |= set(last["tags"])
+    if set(ACTIONS) - taken:
+        raise vlib.ToolError("vacuous model run: actions never taken: %s" % sorted(set(ACTIONS) - taken))
     # TLC itself must find exactly the listed deviations in the design as the code is, and none in the repaired design
-    if mc_tags != KNOWN_TAGS:
-        raise vlib.ToolError("model as the code is: TLC found %s, expected exactly %s" % (sorted(mc_tags), sorted(KNOWN_TAGS)))
+    if mc_tags != known_tags:
+        raise vlib.ToolError("model as the code is: TLC found %s, expected exactly %s" % (sorted(mc_tags), sorted(known_tags)))
     chk.extra["mc_counterexample_classes_as_code_is"] = sorted(mc_tags)
     chk.extra["mc_states_as_repaired"] = rr.distinct
 
@@ -304,7 +347,7 @@ def run(tier):
         good = [g for g in cases if not any(not c["ok"] for c in g["calls"])]
         rnd.shuffle(bad)
         rnd.shuffle(good)
-        cases = bad[:1200] + good[:1300]
+        cases = bad[:1200] + good[:2500 - min(len(bad), 1200)]
     cin, cout = os.path.join(w, "gen.ndjson"), os.path.join(w, "gen.out.ndjson")
     write_ndjson(cin, [{"cfg": g["cfg"], "user": TOK[g["cfg"]["user"]], "owner": TOK[g["cfg"]["owner"]], "objs": docs[g["cfg"]["dn"]],
                         "calls": [dict({"call": c["call"], "tok": c["tok"]}, **({"pw": TOK[c["tok"]]} if c["call"] in ("Decrypt", "AuthUser", "AuthOwner", "Auth") else {}))
@@ -313,7 +356,7 @@ def run(tier):
     gevs = read_ndjson(cout)
     if sum(1 for e in gevs if e["ev"] == "Reset") != len(cases):
         raise vlib.ToolError("replay lost cases")
-    gvs, d, g2 = judge_events(cout, len(gevs), "c05gen", 4 if quick else 12)
+    gvs, d, g2 = judge_events(cout, len(gevs), "c05gen", 4 if quick else 12, tcfg)
     chk.states += d
     chk.transitions += g2
     pred = {i + 1: g["calls"] for i, g in enumerate(cases)}
@@ -326,9 +369,14 @@ def run(tier):
     need = {"V1/R2", "V2/R3", "V4/R4", "V5/R5", "V5/R6"}
     if need - have:
         raise vlib.ToolError("vacuous generation: configurations never generated: %s" % sorted(need - have))
-    for t in ("ok-restored", "ok-rejected", "ok-loaded-enc", "ok-loaded-autodecrypted", "ok-auth", "ok"):
-        if not gseen.get(t):
-            raise vlib.ToolError("vacuous replay: no call of lopdf was judged %s" % t)
+    # anti-vacuity from the inputs (what the model expects of the replayed sequences), not from lopdf's answers
+    expected = set()
+    for g in cases:
+        for c in g["calls"]:
+            expected |= set(c["tags"])
+    for t in ("ok-restored", "ok-rejected", "ok-loaded-enc", "ok-loaded-autodecrypted", "ok-auth", "ok-auth-rejected", "ok"):
+        if t not in expected:
+            raise vlib.ToolError("vacuous replay: no replayed sequence contains a call the model judges %s" % t)
     mid = cases[len(cases) // 2]
     chk.sample({"generated": {"cfg": mid["cfg"]["name"], "user": mid["cfg"]["user"], "owner": mid["cfg"]["owner"], "doc": mid["cfg"]["dn"],
                               "calls": [[c["call"], c["tok"], c["res"], sorted(c["tags"])] for c in mid["calls"]]}})
@@ -365,9 +413,32 @@ def run(tier):
               ({"streamdict", "metadata", "crypt.name", "crypt.arr", "crypt.nodp", "crypt.noname", "empty.str", "empty.stream", "long.str", "long.stream"} - itemcls)
     if missing:
         raise vlib.ToolError("vacuous trace set: classes never recorded: %s" % sorted(missing))
-    for t in ("ok-restored", "ok-rejected", "ok-loaded-enc", "ok-loaded-autodecrypted", "ok-auth", "ok-auth-rejected"):
-        if not rseen.get(t) and not chk.violations:
-            raise vlib.ToolError("vacuous trace set: no recorded call was judged %s" % t)
+    # anti-vacuity from the inputs: the call patterns that exercise each clause were driven
+    pat = set()
+    for reset, calls in rruns:
+        enc = file_enc = False
+        for c in calls:
+            right = "same" in (c["rel"]["u"], c["rel"]["o"])
+            wrong = c["rel"]["u"] == "diff" and c["rel"]["o"] == "diff"
+            if c["call"] == "Encrypt":
+                enc = True
+            elif c["call"] == "Decrypt" and enc:
+                pat.add("decrypt.right" if right else "decrypt.wrong" if wrong else "decrypt.equiv")
+                if right and file_enc:
+                    pat.add("decrypt.right.viafile")
+                if right:
+                    pat.add("decrypt.user" if c["rel"]["u"] == "same" else "decrypt.owner")
+                    enc = False
+            elif c["call"] in ("AuthUser", "AuthOwner", "Auth") and enc:
+                pat.add("auth.right" if right else "auth.wrong" if wrong else "auth.equiv")
+            elif c["call"] == "Save" and enc:
+                pat.add("save.enc")
+            elif c["call"] == "Load" and "save.enc" in pat:
+                file_enc = enc
+                pat.add("load")
+    miss = {"decrypt.right", "decrypt.wrong", "decrypt.user", "decrypt.owner", "decrypt.right.viafile", "auth.right", "auth.wrong", "save.enc", "load"} - pat
+    if miss:
+        raise vlib.ToolError("vacuous trace set: call patterns never driven: %s" % sorted(miss))
     chk.extra["recorded_runs"] = len(rruns)
     chk.extra["recorded_calls"] = len(revs) - len(rruns)
     chk.extra["model_drift"] = gdrift + rdrift
@@ -380,4 +451,7 @@ def run(tier):
                        "SASLprep is the identity on the password alphabets used (ASCII, Latin-1 letters, Cyrillic, CJK)"]
     # ------------- (B) negative controls on a hand-written conforming run
     negative_controls(chk, w)
+    if not quick and not chk.violations:
+        for f in (cin, cout):
+            os.remove(f)      # hundreds of MB; every case can be regenerated from the seed
     return chk.finish()
